@@ -76,6 +76,39 @@ func Fiat(pkg string, srt sym.Sort) *Set {
 	return s
 }
 
+// LoadRingOperand loads the ring element behind argument i, which may point to an abstract ring object (Scalar /
+// Element), into one (&x.m), or to four plain limbs holding a canonical representative.
+func LoadRingOperand(ex *absint.Exec, c *absint.CallCtx, i int, srt sym.Sort) *sym.Term {
+	if p, ok := c.St.Resolve(c.Args[i]).(*absint.Ptr); ok {
+		if leaf := ex.EnclosingLeaf(c.St, p); leaf != nil {
+			return loadAbsPtr(ex, c, leaf, srt)
+		}
+	}
+	return loadRing(ex, c, i, srt)
+}
+
+// FiatOnAbstract: the conversions out of the Montgomery domain applied to the limbs of an object that this layer keeps
+// abstract (fiat.FromMontgomery(&nm, &s.m) with s an abstract Scalar): the destination receives the limbs of the
+// canonical representative.
+func FiatOnAbstract(pkg string, srt sym.Sort) *Set {
+	s := NewSet()
+	s.Intercepts[pkg+".FromMontgomery"] = func(ex *absint.Exec, c *absint.CallCtx) (absint.Val, bool) {
+		in, ok := c.St.Resolve(c.Args[1]).(*absint.Ptr)
+		if !ok {
+			return nil, false
+		}
+		leaf := ex.EnclosingLeaf(c.St, in)
+		out := ptrArg(ex, c, 0)
+		if leaf == nil || out == nil || ex.IsLeaf(c.St, out) {
+			return nil, false
+		}
+		t := loadAbsPtr(ex, c, leaf, srt)
+		ex.WriteWords(c.St, out, limbsOf(sym.App(sym.Int, "int_of:"+srt.String(), t)))
+		return nil, true
+	}
+	return s
+}
+
 // BigInt is the integer value of a byte string / limb vector before reduction.
 func os2ip(b *sym.Term) *sym.Term {
 	if v, ok := bytesConstToInt(b); ok {
